@@ -6,6 +6,8 @@ def run(tier):
     chk = vtlib.Check("C02", tier, "model_checking")
     thorough = tier == "thorough"
     progs = en.curated() + en.curated(names=["mixed14", "headless", "stratutil"], manual=True)
+    # substitution limit 1: a single approved request fills the per-step bookkeeping exactly
+    progs += [en.Prog("flat3-lim1", en.st.CURATED["flat3"], sublimit=1), en.Prog("deep3-lim1", en.st.CURATED["deep3"], sublimit=1)]
     classes = en.cls("REQ", "SELECT", "RNG", "UTIL", "RANK")
     args = ["--tier", tier, "--dev", "2" if thorough else "1", "--batch", "3" if thorough else "2",
             "--classes", str(classes), "--deadline", str(1500 if thorough else 150), "--dev-immediate", "1" if thorough else "0"]
